@@ -13,6 +13,10 @@ decidable `Excluded…` predicate / counterexample of lean/SparseV/Props/C04.lea
   F-matmul-empty-batch      (wrapper logic, no Lean model) matmul batch recursion with a batch axis of extent 0
   F-tensordot-empty-return-type  (wrapper logic) tensordot's zero-size shortcut ignores return_type
   F-dot-1d-length-mismatch  (wrapper logic) dot of two 1-d operands of lengths 1 and n != 1 broadcasts instead of raising
+  dtype-only (thorough tier; dtypes are outside the theorems):
+  F-int32-sum-upcast        1-d dot and einsum reduce with ndarray.sum()/COO.sum(), which promote int32 to int64; NumPy keeps int32
+  F-csc-nd-sparse-complex   `_dot_csc_ndarray_sparse` accumulates in a float64 array: numba TypingError for complex operands
+  F-complex-negzero-mixed   `_utils.equivalent(loose=True)` drops `loose` for complex: 0j * negative dense value = -0 is "not the fill value"
 
 `ACTIVE` is filled by harness/c04.py after replaying each finding's witness under the watchdog: a
 finding whose witness no longer fails (the defect was repaired) classifies nothing.
@@ -168,8 +172,25 @@ def tensordot_zero_size_shortcut(case):
         return False
 
 
+def dtypes(case):
+    return case["a"].get("dtype", "int64"), case["b"].get("dtype", "int64")
+
+
 def classify(name, case, msg):
     kernels = set(case.get("_kernels") or [])
+    da, db = dtypes(case)
+    if ACTIVE.get("F-int32-sum-upcast") and msg == "dtype int64, numpy int32" and "int32" in (da, db) and (
+            case.get("op") in ("einsum", "einsum1") or (case.get("op") in ("dot", "matmul", "@", "method_dot")
+                                                        and len(case["a"]["shape"]) == 1 and len(case["b"]["shape"]) == 1)):
+        return "F-int32-sum-upcast"
+    if ACTIVE.get("F-csc-nd-sparse-complex") and kernels == {"csc_nd_sparse"} and "complex128" in (da, db) and msg.startswith("raised TypingError"):
+        return "F-csc-nd-sparse-complex"
+    if ACTIVE.get("F-complex-negzero-mixed") and "complex128" in (da, db) and "nd" in (case["a"]["fmt"], case["b"]["fmt"]) and (
+            case.get("op") in ("outer", "einsum", "einsum1", "vecdot", "kron")
+            and msg.startswith("raised ValueError: Performing a mixed sparse-dense operation")):
+        nd = case["a"] if case["a"]["fmt"] == "nd" else case["b"]
+        if (np.array(nd["dense"], dtype=float) < 0).any():
+            return "F-complex-negzero-mixed"
     if ACTIVE.get("F-matmul-1d-left") and case.get("op") in ("matmul", "@") and len(case["a"]["shape"]) == 1 and len(case["b"]["shape"]) >= 3 and (
             msg.startswith("shape ") or msg.startswith("values differ")):
         return "F-matmul-1d-left"
